@@ -34,6 +34,7 @@ type c09Case struct {
 	Num    int     `json:"num,omitempty"`
 	Fid    int     `json:"fid,omitempty"`
 	Xss    [][]F64 `json:"xss,omitempty"`
+	Big    bool    `json:"big,omitempty"` // kind 0: values beyond the usual magnitude window are intended (overflow class)
 }
 
 func c09Sample(c *c09Case) (*stats.Sample, error) {
@@ -52,7 +53,7 @@ func c09Sample(c *c09Case) (*stats.Sample, error) {
 	} else if len(c.Ws) != 0 {
 		return nil, fmt.Errorf("weights without hasw")
 	}
-	if !allFinite(xs) || !allFinite(ws) || len(xs) > 2000 {
+	if !allFinite(xs) || !allFinite(ws) || len(xs) > 70000 {
 		return nil, fmt.Errorf("bad values")
 	}
 	if c.Sorted && !sort.Float64sAreSorted(xs) {
@@ -105,7 +106,7 @@ func c09Run(raw []byte) (*Line, error) {
 			return nil, err
 		}
 		for _, x := range s.Xs {
-			if x != 0 && (math.Abs(x) > 1e12 || math.Abs(x) < 1e-12) {
+			if !c.Big && x != 0 && (math.Abs(x) > 1e12 || math.Abs(x) < 1e-12) {
 				return nil, fmt.Errorf("value outside the generated magnitude window")
 			}
 		}
@@ -175,7 +176,7 @@ func c09Run(raw []byte) (*Line, error) {
 		switch c.Sub {
 		case 0, 1:
 			lo, hi := float64(c.Lo), float64(c.Hi)
-			if c.Num < 0 || c.Num > 2000 || !allFinite([]float64{lo, hi}) {
+			if c.Num < 0 || c.Num > 70000 || !allFinite([]float64{lo, hi}) {
 				return nil, fmt.Errorf("bad linspace")
 			}
 			if c.Sub == 0 {
@@ -524,6 +525,85 @@ func c09Gen(tier string, rng *rand.Rand, emit func(interface{})) {
 		emit(c09Case{Kind: 1, Xs: toF64s(xs), Ws: toF64s(ws), HasW: true, Ops: []c09Op{
 			{T: 3, I: 0}, {T: 0, I: 0}, {T: 3, I: 0}, {T: 1, I: 0}, {T: 3, I: 1}, {T: 2, I: 1, J: 0, V: -1}, {T: 3, I: 1}, {T: 3, I: 0}}})
 	}
+	// (d3) finite data whose SUM (and squared deviations) overflow float64 although the mean does not: the mean must
+	//      stay finite and accurate (incremental update), Sum is +-Inf of the sign of the first overflowing prefix,
+	//      Variance / StdDev are +Inf when the exact M2 exceeds MaxFloat64 (0 for equal values).  Orders are fixed:
+	//      the incremental mean itself needs |x - m| <= MaxFloat64.
+	rep := func(v float64, n int) []float64 {
+		r := make([]float64, n)
+		for i := range r {
+			r[i] = v
+		}
+		return r
+	}
+	for _, xs := range [][]float64{
+		// (GeoMean: its tolerance is calibrated for |ln x| <= 28; exp(709 +- 1 ulp) is off by 1.6e-13 relative. The
+		//  small lists therefore contain a value <= 0 (GeoMean NaN); the 200-long one is only bracketed anyway.)
+		{-1.5e308, -1.5e308},
+		{-1.5e308, -1.5e308, -1.5e308},
+		rep(1e307, 200),
+		rep(-1e307, 150),
+		{1e308, 1e308, -7e307, 1e308},
+		{-1e308, -1e308, 7e307, -1e308},
+		{1.2e308, 1.2e308, -5e307, 1.2e308, -5e307},
+		{-1.7e308, -1.6e308, -1.5e308},
+		{-8e307, -9e307, -1e308, -1.1e308, -1.2e308, -1.3e308},
+	} {
+		emit(c09Case{Kind: 0, Xs: toF64s(xs), Big: true})
+		ones := rep(1, len(xs))
+		emit(c09Case{Kind: 0, Xs: toF64s(xs), Ws: toF64s(ones), HasW: true, Big: true})
+		if len(xs) >= 3 {
+			ones[1] = 0
+			emit(c09Case{Kind: 0, Xs: toF64s(xs), Ws: toF64s(ones), HasW: true, Big: true})
+		}
+		emit(c09Case{Kind: 2, Sub: 2, Xs: toF64s(xs)})
+		emit(c09Case{Kind: 1, Xs: toF64s(xs), Ops: []c09Op{{T: 3, I: 0}, {T: 1, I: 0}, {T: 0, I: 1}, {T: 3, I: 1}, {T: 3, I: 0}}})
+	}
+	nBig := 12
+	if thorough {
+		nBig = 120
+	}
+	for it := 0; it < nBig; it++ {
+		n := 2 + rng.Intn(5)
+		if it%4 == 3 {
+			n = 65 + rng.Intn(100)
+		}
+		sign := -1.0
+		if n > 64 && rng.Intn(2) == 0 {
+			sign = 1
+		}
+		xs := make([]float64, n)
+		for i := range xs {
+			xs[i] = sign * (1e307 + rng.Float64()*1e308)
+		}
+		emit(c09Case{Kind: 0, Xs: toF64s(xs), Big: true})
+	}
+	// (d4) long inputs (lengths around powers of two up to 2^13+8; the exact model's incremental loops count in unary
+	//      and cost n^2: 2 s at 8192, 5 min at 65543 - the vec helpers below go up to 2^16+7): small values k/8; the
+	//      first value is 0 so that GeoMean is NaN at once (its coefficient vector is quadratic in n)
+	longLens := []int{255, 256, 257, 4095, 4096, 4097, 4103, 8191, 8192, 8193, 8200}
+	for _, n := range longLens {
+		xs := make([]float64, n)
+		for i := range xs {
+			xs[i] = float64(i%11-3) / 8
+		}
+		xs[0] = 0
+		emit(c09Case{Kind: 0, Xs: toF64s(xs)})
+		if n <= 8200 {
+			ws := make([]float64, n)
+			for i := range ws {
+				ws[i] = float64((i + 1) % 3)
+			}
+			emit(c09Case{Kind: 0, Xs: toF64s(xs), Ws: toF64s(ws), HasW: true})
+		}
+	}
+	{
+		xs := make([]float64, 4097)
+		for i := range xs {
+			xs[i] = float64(i/7) / 8
+		}
+		emit(c09Case{Kind: 0, Xs: toF64s(xs), Sorted: true})
+	}
 	// (e) histories: Sort / Copy / Poke / Query interleaved, up to 30 operations
 	nH := 200
 	if thorough {
@@ -609,6 +689,37 @@ func c09Gen(tier string, rng *rand.Rand, emit func(interface{})) {
 		var xss [][]F64
 		for k := rng.Intn(5); k > 0; k-- {
 			xss = append(xss, toF64s(c09Values(rng, rng.Intn(6))))
+		}
+		emit(c09Case{Kind: 2, Sub: 4, Xss: xss})
+	}
+	// long vec inputs: Map / Vectorize / Sum / Concat / Linspace / Logspace around powers of two up to 2^16+7
+	for _, n := range []int{255, 256, 257, 4095, 4096, 4097, 4103, 8191, 8192, 8193, 8200, 65535, 65536, 65543} {
+		xs := make([]float64, n)
+		for i := range xs {
+			xs[i] = float64(i%13)/8 + 0.125
+		}
+		emit(c09Case{Kind: 2, Sub: 3, Fid: 2 + n%2, Xs: toF64s(xs)})
+		ys := make([]float64, n)
+		for i := range ys {
+			ys[i] = float64(i%9-4) / 8
+		}
+		emit(c09Case{Kind: 2, Sub: 2, Xs: toF64s(ys)})
+		if n <= 8200 { // the model's Linspace converts the unary index of every element: n^2
+			emit(c09Case{Kind: 2, Sub: 0, Lo: 0, Hi: F64(float64(n - 1)), Num: n})
+			emit(c09Case{Kind: 2, Sub: 0, Lo: -1, Hi: 3, Num: n})
+			emit(c09Case{Kind: 2, Sub: 1, Lo: 0, Hi: 8, Num: n, Base: 2})
+		}
+	}
+	for _, parts := range [][]int{{4096, 1, 6}, {1, 8191, 0, 8}, {4097, 4096, 4095}, {65536, 7}, {3, 30000, 0, 35540}} {
+		var xss [][]F64
+		v := 0
+		for _, l := range parts {
+			p := make([]float64, l)
+			for i := range p {
+				p[i] = float64(v%29) / 4
+				v++
+			}
+			xss = append(xss, toF64s(p))
 		}
 		emit(c09Case{Kind: 2, Sub: 4, Xss: xss})
 	}
